@@ -257,6 +257,41 @@ fn records<R: Rec>(ctx: &Ctx) {
     }
 }
 
+/// A wrapper stored across region boundaries: three adjacent regions of 5, 2 and 9 bytes, so
+/// that 4- and 8-byte objects span two or three regions at some offsets.
+macro_rules! across_regions {
+    ($ctx:expr, $W:ident, $N:ty, $tobytes:ident, $vals:expr, $mem:expr) => {{
+        use vm_memory::GuestAddress;
+        let sz = size_of::<$N>();
+        let mem: &vm_memory::GuestMemoryMmap<()> = $mem;
+        for off in 0..=(16 - sz) {
+            for (vi, v64) in $vals.iter().enumerate() {
+                let v = *v64 as $N;
+                let w: $W = v.into();
+                let fill = if vi % 2 == 0 { 0xa5u8 } else { 0x00 };
+                for route in 0..2usize {
+                    $ctx.case(true);
+                    mem.write_slice(&[fill; 16], GuestAddress(0x2000)).unwrap();
+                    if route == 0 {
+                        mem.write_obj(w, GuestAddress(0x2000 + off as u64)).unwrap();
+                    } else {
+                        mem.write_slice(w.as_slice(), GuestAddress(0x2000 + off as u64)).unwrap();
+                    }
+                    let mut got = [0u8; 16];
+                    mem.read_slice(&mut got, GuestAddress(0x2000)).unwrap();
+                    let mut expect = [fill; 16];
+                    expect[off..off + sz].copy_from_slice(&v.$tobytes());
+                    let back: $W = mem.read_obj(GuestAddress(0x2000 + off as u64)).unwrap();
+                    if got != expect || back != w {
+                        let key = format!("C20/{}/wire-format-across-regions", stringify!($W));
+                        $ctx.fail(&key, &format!("value {:#x} at offset {} of regions 5+2+9 bytes (route {}): memory {:02x?}, expected {:02x?}, read back {:#x}", v, off, route, got, expect, back.to_native()), json!({"type": stringify!($W), "value": format!("{:#x}", v), "offset": off, "route": route}));
+                    }
+                }
+            }
+        }
+    }};
+}
+
 fn structured64() -> impl Iterator<Item = u64> {
     const B: [u8; 6] = [0x00, 0x01, 0x7f, 0x80, 0xfe, 0xff];
     (0..6usize.pow(8)).map(|mut k| {
@@ -271,7 +306,7 @@ fn structured64() -> impl Iterator<Item = u64> {
 
 pub fn run(tier: Tier, replay: Option<String>) -> i32 {
     let ctx = crate::new_ctx("C20", tier, "exploration", &replay);
-    ctx.set_rule("all 2^16 values for Le16/Be16; all 2^32 values for Le32/Be32 in the thorough tier (quick: every value whose bytes are drawn from {00,01,7f,80,fe,ff} plus rotations of 0x01234567 and single bits); for Le64/Be64/LeSize/BeSize every value whose 8 bytes are drawn from {00,01,7f,80,fe,ff} (6^8 = 1679616 values; every 36th in the quick tier) plus all rotations of 0x0123456789abcdef and all single-bit values. Per value: native->wrapper->native, in-memory bytes == to_le_bytes/to_be_bytes, == with the represented value both ways, != with v^1, the byte-swapped and a rotated value, and (every 97th value) the bytes found in a volatile slice after write_obj at an unaligned offset. Placement sweep: every wrapper x every offset 0..=24 of an 8-aligned container (so every address class mod 8) x 20 boundary values (thorough: + all rotations and single bits) x container pre-filled with 0xa5 / 0x00 x five routes (write_obj, write_slice of as_slice, typed reference store on a volatile slice; write_obj and write on mmap-backed guest memory): the whole container must equal the fill with exactly the wire bytes at the offset, and read_obj must return the value. Records made of wrappers (a packed {Le16,Be32} of alignment 1 and a repr(C) {Le32,Be32,Be16,Le16}): typed slice copies in both directions for every slice offset 0..8 x slice length 0..=3 records+3 (so also lengths that are not a multiple of the record size) x 0..=4 host records, element arrays and object reads: whole records in wire format move, nothing else changes. Non-trivial = the value is not a byte palindrome (its two byte orders differ). Distinct by construction.");
+    ctx.set_rule("all 2^16 values for Le16/Be16; all 2^32 values for Le32/Be32 in the thorough tier (quick: every value whose bytes are drawn from {00,01,7f,80,fe,ff} plus rotations of 0x01234567 and single bits); for Le64/Be64/LeSize/BeSize every value whose 8 bytes are drawn from {00,01,7f,80,fe,ff} (6^8 = 1679616 values; every 36th in the quick tier) plus all rotations of 0x0123456789abcdef and all single-bit values. Per value: native->wrapper->native, in-memory bytes == to_le_bytes/to_be_bytes, == with the represented value both ways, != with v^1, the byte-swapped and a rotated value, and (every 97th value) the bytes found in a volatile slice after write_obj at an unaligned offset. Placement sweep: every wrapper x every offset 0..=24 of an 8-aligned container (so every address class mod 8) x 20 boundary values (thorough: + all rotations and single bits) x container pre-filled with 0xa5 / 0x00 x five routes (write_obj, write_slice of as_slice, typed reference store on a volatile slice; write_obj and write on mmap-backed guest memory): the whole container must equal the fill with exactly the wire bytes at the offset, and read_obj must return the value. Every wrapper also stored at every offset of guest memory made of three adjacent regions of 5, 2 and 9 bytes (objects spanning two and three regions). Records made of wrappers (a packed {Le16,Be32} of alignment 1 and a repr(C) {Le32,Be32,Be16,Le16}): typed slice copies in both directions for every slice offset 0..8 x slice length 0..=3 records+3 (so also lengths that are not a multiple of the record size) x 0..=4 host records, element arrays and object reads: whole records in wire format move, nothing else changes. Non-trivial = the value is not a byte palindrome (its two byte orders differ). Distinct by construction.");
     ctx.assume("64-bit and pointer-sized wrappers are covered by a bounded byte alphabet, not exhaustively");
     let mut fails = 0;
     for (n, s, a) in [
@@ -371,6 +406,15 @@ pub fn run(tier: Tier, replay: Option<String>) -> i32 {
         placement!(ctx, Be64, u64, to_be_bytes, vals, &mem);
         placement!(ctx, LeSize, usize, to_le_bytes, vals, &mem);
         placement!(ctx, BeSize, usize, to_be_bytes, vals, &mem);
+        let mem3 = vm_memory::GuestMemoryMmap::<()>::from_ranges(&[(vm_memory::GuestAddress(0x2000), 5), (vm_memory::GuestAddress(0x2005), 2), (vm_memory::GuestAddress(0x2007), 9)]).unwrap();
+        across_regions!(ctx, Le16, u16, to_le_bytes, vals, &mem3);
+        across_regions!(ctx, Be16, u16, to_be_bytes, vals, &mem3);
+        across_regions!(ctx, Le32, u32, to_le_bytes, vals, &mem3);
+        across_regions!(ctx, Be32, u32, to_be_bytes, vals, &mem3);
+        across_regions!(ctx, Le64, u64, to_le_bytes, vals, &mem3);
+        across_regions!(ctx, Be64, u64, to_be_bytes, vals, &mem3);
+        across_regions!(ctx, LeSize, usize, to_le_bytes, vals, &mem3);
+        across_regions!(ctx, BeSize, usize, to_be_bytes, vals, &mem3);
     }
     records::<RecP>(&ctx);
     records::<RecA>(&ctx);
